@@ -517,6 +517,8 @@ func loadYamlFile(ctx context.Context, file types.ConfigFile, opts *Options, wor
 		}
 
 		if !opts.SkipValidation {
+			// what was merged in from an earlier file or an included project has been through OmitEmpty: its empty lists are nil again
+			fixEmptyNotNull(dict)
 			if err := schema.Validate(dict); err != nil {
 				return fmt.Errorf("validating %s: %w", file.Filename, err)
 			}
